@@ -438,6 +438,10 @@ const O_REFUSED: u64 = 2;     // serialisation refused
 const O_DESER: u64 = 8;       // deserialisation failed
 const O_BEHAV: u64 = 16;      // restored value behaves differently / compares unequal / re-serialises differently
 const O_GUARD: u64 = 32;      // restored vectoriser refuses to work until the tokenizer is re-armed (documented)
+/// serde_json is built without `float_roundtrip`: its number parser (u64 significand converted to f64, then one
+/// multiplication/division by an inexact power of ten) is 1-3 ulp off on a fraction of the 17-digit inputs.
+/// Calibrated on the unchanged tree (see props/C19.json); the largest distance seen is written to the evidence.
+const JSON_ULPS: i128 = 4;
 const O_JSON: u64 = 128;      // serde_json round trip differs by more than 1 ulp or in structure
 const O_REFIT: u64 = 256;     // restored parameter set with a function tokenizer silently refits with the regex tokenizer
 const O_PANIC: u64 = 512;     // (de)serialisation or an observation panicked
@@ -446,6 +450,8 @@ struct Ctx {
     out: Out,
     id: u64,
     seen: BTreeSet<String>,
+    /// concrete instantiations (`ty` arguments of `rt`) that were recorded successfully
+    types_done: BTreeSet<String>,
     json_ok: u64,
     json_na: u64,
     json_worst: i128,
@@ -577,6 +583,7 @@ fn judge(ctx: &mut Ctx, id: u64, ty: &str, o: &Opts, g: Gathered) {
         }
     };
     names_in(&tree, &mut ctx.seen);
+    ctx.types_done.insert(ty.to_string());
     let desc_of = |extra: &str| {
         let mut t = String::new();
         coq_val(&tree, &mut t);
@@ -638,8 +645,10 @@ fn judge(ctx: &mut Ctx, id: u64, ty: &str, o: &Opts, g: Gathered) {
             Ok(Ok(t)) => {
                 let mut worst = 0i128;
                 let un: Vec<&str> = o.unordered.clone();
-                if close(&canon(&tj, &un), &canon(&t, &un), 1, &mut worst) { ctx.json_ok += 1; ctx.json_worst = ctx.json_worst.max(worst); }
-                else { ctx.out.rust_fail(id, O_JSON, &tagrefs, &format!("serde_json round trip changes the value by more than 1 ulp or in structure (largest float distance {} ulp; first difference at {})", worst, first_diff(&canon(&tj, &un), &canon(&t, &un), "$").unwrap_or_default()), &desc); }
+                let ok = close(&canon(&tj, &un), &canon(&t, &un), JSON_ULPS, &mut worst);
+                if worst < 1 << 40 { ctx.json_worst = ctx.json_worst.max(worst); }
+                if ok { ctx.json_ok += 1; }
+                else { ctx.out.rust_fail(id, O_JSON, &tagrefs, &format!("serde_json round trip changes the value by more than {} ulp or in structure (largest float distance {} ulp; first difference at {})", JSON_ULPS, worst, first_diff(&canon(&tj, &un), &canon(&t, &un), "$").unwrap_or_default()), &desc); }
             }
             Ok(Err(e)) => ctx.out.rust_fail(id, O_JSON, &tagrefs, &format!("serde_json cannot read back what it wrote: {}", e), &desc),
             Err(p) => ctx.out.rust_fail(id, O_JSON | O_PANIC, &tagrefs, &format!("serde_json::from_str panicked: {}", p), &desc),
@@ -953,18 +962,24 @@ macro_rules! sec_linear {
                 let q1 = q.slice(ndarray::s![.., 0..1]).to_owned();
                 rt(ctx, &format!("FittedIsotonicRegression<{}>", fl), &m, &tags(&[fl, "fitted"]), &move |m| vec![format!("{:?}", m), a1(&m.predict(&q1)), a1(&m.predict(&x1))], Some(&|a, b| a == b));
             }
-            // Tweedie
+            // Tweedie: two fixed, well-conditioned settings first (normal/identity and gamma/log), then a random one
             let yp = y.mapv(|v| v.abs() + (0.5 as $F));
             let dsp = Dataset::new(x.clone(), yp);
             let power = *r.pick(&[0.0, 1.0, 1.5, 2.0, 3.0]) as $F;
             let mut tp = TweedieRegressor::<$F>::params().alpha(*r.pick(&[0.0, 0.1, 1.0]) as $F).power(power)
                 .max_iter(20 + r.below(80) as usize).tol(*r.pick(&ftols!($F)) as $F).fit_intercept(rep % 2 == 0);
             if r.chance(0.5) { tp = tp.link(if power == 0.0 { Link::Identity } else { Link::Log }); }
+            let anchors = vec![
+                TweedieRegressor::<$F>::params().alpha(0.1 as $F).power(0.0 as $F).link(Link::Identity).max_iter(100).tol(ftols!($F)[0] as $F),
+                TweedieRegressor::<$F>::params().alpha(0.5 as $F).power(2.0 as $F).link(Link::Log).max_iter(100).tol(ftols!($F)[0] as $F),
+                tp,
+            ];
+            for tp in anchors {
             if std::env::var("VERIF_C19_DEBUG").is_ok() { eprintln!("tweedie {} rep {} power {:?} params {:?}", fl, rep, power, tp); }
             if let Ok(valid) = tp.check() {
                 // the f32 L-BFGS line search of the GLM can spin for ever on some settings (seen: power 3, log link):
                 // such a parameter set cannot be observed, it is skipped and counted
-                let probe = { let (v, d) = (valid.clone(), dsp.clone()); finishes_within(20, move || v.fit(&d).is_ok()) };
+                let probe = { let (v, d) = (valid.clone(), dsp.clone()); finishes_within(5, move || v.fit(&d).is_ok()) };
                 if probe.is_none() { ctx.out.bump("tweedie_fit_did_not_terminate_skipped"); continue; }
                 let dsc = dsp.clone();
                 rt(ctx, &format!("TweedieRegressorValidParams<{}>", fl), &valid, &tags(&[fl, "params"]), &move |p| {
@@ -974,6 +989,7 @@ macro_rules! sec_linear {
                     let qc = q.clone();
                     rt(ctx, &format!("TweedieRegressor<{}>", fl), &m, &tags(&[fl, "fitted"]), &move |m| vec![format!("{:?}", m), a1(&m.coef), fx(m.intercept), a1(&m.predict(&qc))], Some(&|a, b| a == b));
                 }
+            }
             }
         }
     }};
@@ -1625,31 +1641,55 @@ fn main() {
     let mut rng = Sm64::new(args.seed);
     let thorough = args.tier == "thorough";
     let out = Out::new(&args.out, args.shards, "C19.Corr", "case", args.only);
-    let mut ctx = Ctx { out, id: 0, seen: BTreeSet::new(), json_ok: 0, json_na: 0, json_worst: 0, thorough };
+    let mut ctx = Ctx { out, id: 0, seen: BTreeSet::new(), types_done: BTreeSet::new(), json_ok: 0, json_na: 0, json_worst: 0, thorough };
 
-    let mut r = rng.fork();
-    sec_nn!(f32, &mut ctx, &mut r);
-    sec_nn!(f64, &mut ctx, &mut r);
-    let mut r = rng.fork();
-    sec_kmeans!(f32, &mut ctx, &mut r);
-    sec_kmeans!(f64, &mut ctx, &mut r);
-    macro_rules! both { ($m:ident) => {{ let mut r = rng.fork(); $m!(f32, &mut ctx, &mut r); $m!(f64, &mut ctx, &mut r); }}; }
-    both!(sec_density);
-    both!(sec_gmm);
-    both!(sec_linear);
-    both!(sec_elasticnet);
-    both!(sec_logistic);
-    both!(sec_svm);
-    both!(sec_trees);
-    both!(sec_bayes);
-    both!(sec_ftrl);
-    both!(sec_pls);
-    both!(sec_ica);
-    both!(sec_scalers);
-    let mut r = rng.fork();
-    sec_pca(&mut ctx, &mut r);
-    let mut r = rng.fork();
-    sec_text(&mut ctx, &mut r);
+    // Every section must produce each of the instantiations listed with it, whatever the seed: fits that fail (or
+    // do not terminate) for one draw of data / hyper-parameters are not silently dropped - the section is run again
+    // with a fresh generator derived from the same seed until all of them exist (random draws only ADD cases);
+    // if that is impossible the harness stops loudly instead of writing an incomplete sweep.
+    fn missing(done: &BTreeSet<String>, needs: &[String]) -> Vec<String> {
+        needs.iter().filter(|n| !done.iter().any(|t| t == *n || (n.contains('<') && t.starts_with(n.as_str())))).cloned().collect()
+    }
+    macro_rules! ensure {
+        ($needs:expr, $run:expr) => {{
+            let needs: Vec<String> = $needs;
+            let mut attempt = 0;
+            loop {
+                let mut r = rng.fork();
+                $run(&mut ctx, &mut r);
+                let miss = missing(&ctx.types_done, &needs);
+                if miss.is_empty() { break; }
+                attempt += 1;
+                ctx.out.bump("section_rerun_because_a_fit_failed");
+                if attempt >= 12 { panic!("C19 harness: no successful instantiation of {:?} after {} attempts", miss, attempt); }
+            }
+        }};
+    }
+    macro_rules! both {
+        ($m:ident, [$($need:expr),*]) => {{
+            ensure!(vec![$($need.replace("{}", "f32")),*], |c: &mut Ctx, r: &mut Sm64| { $m!(f32, c, r); });
+            ensure!(vec![$($need.replace("{}", "f64")),*], |c: &mut Ctx, r: &mut Sm64| { $m!(f64, c, r); });
+        }};
+    }
+    both!(sec_nn, ["LinearSearch", "KdTree", "BallTree", "CommonNearestNeighbour", "L1Dist", "L2Dist", "LInfDist", "LpDist<{}"]);
+    both!(sec_kmeans, ["KMeans<{},L2Dist", "KMeans<{},L1Dist", "KMeansParams<{}", "KMeansValidParams<{}", "KMeansInit<{}"]);
+    both!(sec_density, ["Dbscan", "Optics", "DbscanValidParams<{}", "OpticsParams<{}", "OpticsValidParams<{}", "OpticsAnalysis<{}", "Sample<{}"]);
+    both!(sec_gmm, ["GmmParams<{}", "GmmValidParams<{}", "GaussianMixtureModel<{}", "GmmCovarType", "GmmInitMethod"]);
+    both!(sec_linear, ["LinearRegression", "FittedLinearRegression<{}", "IsotonicRegression", "FittedIsotonicRegression<{}", "TweedieRegressorValidParams<{}", "TweedieRegressor<{}", "Link"]);
+    both!(sec_elasticnet, ["ElasticNetValidParamsBase<{},false", "ElasticNetValidParamsBase<{},true", "ElasticNet<{}", "MultiTaskElasticNet<{}"]);
+    both!(sec_logistic, ["LogisticRegressionParams<{},Ix1", "LogisticRegressionParams<{},Ix2", "LogisticRegressionValidParams<{},Ix1", "LogisticRegressionValidParams<{},Ix2",
+                         "FittedLogisticRegression<{},usize", "FittedLogisticRegression<{},bool", "FittedLogisticRegression<{},String", "BinaryClassLabels<{}", "ClassLabel<{}",
+                         "MultiFittedLogisticRegression<{}"]);
+    both!(sec_svm, ["ExitReason", "KernelMethod<{}", "Svm<{},bool", "Svm<{},Pr", "Svm<{},{}", "SeparatingHyperplane<{}"]);
+    both!(sec_trees, ["SplitQuality", "DecisionTreeParams<{}", "DecisionTreeValidParams<{}", "DecisionTree<{}", "TreeNode<{}"]);
+    both!(sec_bayes, ["GaussianNbValidParams<{}", "GaussianNb<{}", "MultinomialNbValidParams<{}", "MultinomialNb<{}"]);
+    both!(sec_ftrl, ["FtrlParams<{}", "Ftrl<{}"]);
+    both!(sec_pls, ["PlsRegression<{}", "PlsCanonical<{}", "PlsCca<{}", "PlsSvdParams"]);
+    both!(sec_ica, ["GFunc", "FastIcaValidParams<{}", "FastIca<{}"]);
+    both!(sec_scalers, ["WhiteningMethod", "ScalingMethod<{}", "LinearScalerParams<{}", "LinearScaler<{}", "NormScaler", "Whitener", "FittedWhitener<{}"]);
+    ensure!(vec!["PcaParams".to_string(), "Pca<f64>".to_string()], |c: &mut Ctx, r: &mut Sm64| sec_pca(c, r));
+    ensure!(["TfIdfMethod", "CountVectorizerParams", "CountVectorizerValidParams", "CountVectorizer", "TfIdfVectorizer", "FittedTfIdfVectorizer"].iter().map(|s| s.to_string()).collect(),
+            |c: &mut Ctx, r: &mut Sm64| sec_text(c, r));
     sec_errors(&mut ctx);
     // a type that derives serde nominally but cannot be instantiated: linfa_kernel::Kernel (finding F23)
     {
@@ -1668,7 +1708,7 @@ fn main() {
         let desc = format!("{{\"sweep\": \"type names recorded in this run\", \"count\": {}}}", names.len());
         ctx.out.case(id, &coq, &["sweep"], &desc, None);
     }
-    ctx.out.bump_by("json_roundtrips_within_1ulp", ctx.json_ok);
+    ctx.out.bump_by("json_roundtrips_within_tolerance", ctx.json_ok);
     ctx.out.bump_by("json_not_applicable", ctx.json_na);
     ctx.out.bump_by("json_worst_ulp", ctx.json_worst as u64);
     let _ = (Ix1, O_TREE, O_GUARD, O_REFIT);
